@@ -10,9 +10,12 @@ CONSTANTS
   Targets = {1, 2, 3, 4, 5, 10, 11, 12, 13}
   DnsPort = {2, 5, 8}
   Allowed = {10, 12}
+  Unsendable = {}
+  DisarmFirst = TRUE
   Fam <- GenFam
   DgAlpha <- GenDgDef
   RpAlpha <- GenRpDef
+  MidAlpha <- NoMid
   Sync = TRUE
   T = 1
   DNST = 57
